@@ -107,6 +107,7 @@ def control_family() -> list[dict]:
     fam = []
     fam.append(P("susp", [S("a"), S("w", ["a"], tasks=[T("w.1", "suspend")]), S("z", ["w"])]))
     fam.append(P("suspmulti", [S("w", tasks=[T("w.1"), T("w.2", "suspend"), T("w.3")]), S("z", ["w"])]))
+    fam.append(P("susp2", [S("w", tasks=[T("w.1", "suspend", 2)]), S("z", ["w"])]))     # needs two approvals
     fam.append(P("suspside", [S("a"), S("w", ["a"], tasks=[T("w.1", "suspend")]), S("x", ["a"]), S("z", ["w", "x"])]))
     fam.append(P("mutex2", [S("a"), S("b", ["a"], mutex="m"), S("c", ["a"], mutex="m"), S("d", ["b", "c"])]))
     fam.append(P("mutex3", [S("b", mutex="m", tasks=[T("b.1"), T("b.2")]), S("c", mutex="m"), S("e", mutex="m")]))
